@@ -193,7 +193,7 @@ pub fn run(case: &WakeCase, ctx: &mut Ctx) -> Vec<&'static str> {
                 let w = WakerHandle::new();
                 for s in slots_ref.0.iter_mut() {
                     if s.fut.is_some() {
-                        s.waker = if shared_waker { w.clone() } else { WakerHandle::new() };
+                        s.waker = if shared_waker { w.clone() } else { s.waker.replacement() };
                         if let Err(e) = poll_slot(s) {
                             errors.lock().unwrap().push(e);
                         }
